@@ -33,7 +33,7 @@ type rtCase struct {
 	Trace bool `json:"trace,omitempty"`
 }
 
-func runRT(r *ev.Recorder, c *rtCase) (string, string) {
+func runRT(r *ev.Recorder, c *rtCase) (key, msg string) {
 	d, err := pu.DilKey(c.Seed)
 	if err != nil {
 		return "keygen/error", err.Error()
@@ -59,6 +59,16 @@ func runRT(r *ev.Recorder, c *rtCase) (string, string) {
 	for i, orig := range c.Msgs {
 		copy(shared, orig)
 		m := shared[:len(orig)]
+		if i%2 == 1 {
+			// odd positions: the message is a slice with sentinel-filled spare capacity behind it
+			var intact func() bool
+			m, intact = pu.Guard(orig)
+			defer func(i int) {
+				if !intact() && key == "" {
+					key, msg = "sign/writes-behind-message", fmt.Sprintf("message %d: Sign/Seal/Verify/Open wrote into the caller's slice or the spare capacity behind it", i)
+				}
+			}(i)
+		}
 		tag := fmt.Sprintf("message %d (%d bytes, passed in a re-used buffer)", i, len(m))
 		if held != nil && !bytes.Equal(held, heldCopy) {
 			return "seal/changes-after-later-call", fmt.Sprintf("the sealed message returned for message %d was modified by a later Sign/Seal call", i-1)
@@ -144,7 +154,9 @@ func TestRoundTrips(t *testing.T) {
 		n++
 		c := &rtCase{Seed: pu.Seed48().Draw(rt, "seed"), Trace: n%6 == 0 || r.Thorough() && n%20 == 0}
 		for i := 0; i < 4; i++ {
-			if rapid.IntRange(0, 19).Draw(rt, "big") == 0 {
+			if big := rapid.IntRange(0, 39).Draw(rt, "big"); big == 0 {
+				c.Msgs = append(c.Msgs, pu.DetBytes(rapid.Uint64().Draw(rt, "hugeContent"), rapid.SampledFrom([]int{65535, 65536, 65537, 100000, 131072, 262145}).Draw(rt, "hugeLen")))
+			} else if big <= 2 {
 				c.Msgs = append(c.Msgs, pu.Msg(65536).Draw(rt, "msg"))
 			} else {
 				c.Msgs = append(c.Msgs, pu.Msg(600).Draw(rt, "msg"))
